@@ -135,7 +135,17 @@ class SpyFS(pathio.AbstractPathIO):
         ctl.net.log("Fs", **pub)
         gate = ctl.gate_hook(s, op, segs, kt) if ctl.gate_hook else None
         if gate is not None:
-            await asyncio.shield(gate)
+            try:
+                await asyncio.shield(gate)
+            except asyncio.CancelledError:
+                raise
+            except Exception:
+                # the held call fails after all (e.g. the executor job raised): one more event for the same call
+                late = {k: v for k, v in pub.items() if k not in ("data", "item")}
+                late["res"] = "fault"
+                late["late"] = True
+                ctl.net.log("Fs", **late)
+                raise
         return res
 
     @universal_exception
